@@ -11,13 +11,13 @@ use std::collections::hash_map::DefaultHasher;
 use std::hash::{Hash, Hasher};
 use std::panic::{catch_unwind, AssertUnwindSafe};
 
-fn cut(s: &str) -> (&str, &str) {
+pub fn cut(s: &str) -> (&str, &str) {
     match s.find(':') {
         Some(i) => (&s[..i], &s[i + 1..]),
         None => (s, ""),
     }
 }
-fn sign_of(s: &str) -> Sign {
+pub fn sign_of(s: &str) -> Sign {
     match s {
         "-" => Sign::Minus,
         "0" => Sign::NoSign,
@@ -25,10 +25,10 @@ fn sign_of(s: &str) -> Sign {
         _ => panic!("bad sign"),
     }
 }
-fn words(s: &str) -> Vec<u32> {
+pub fn words(s: &str) -> Vec<u32> {
     digits(s).into_iter().map(|x| u32::try_from(x).expect("u32 word")).collect()
 }
-fn hexbytes(h: &str) -> Vec<u8> {
+pub fn hexbytes(h: &str) -> Vec<u8> {
     (0..h.len() / 2).map(|i| u8::from_str_radix(&h[2 * i..2 * i + 2], 16).unwrap()).collect()
 }
 
@@ -71,7 +71,7 @@ mod sd {
     }
 }
 
-fn ctor_u(s: &str) -> BigUint {
+pub fn ctor_u(s: &str) -> BigUint {
     let (name, rest) = cut(s);
     match name {
         "vec" => mk_biguint(digits(rest)),
@@ -92,7 +92,7 @@ fn ctor_u(s: &str) -> BigUint {
         _ => panic!("bad ctor"),
     }
 }
-fn ctor_i(s: &str) -> BigInt {
+pub fn ctor_i(s: &str) -> BigInt {
     let (name, rest) = cut(s);
     match name {
         "sle" => return BigInt::from_signed_bytes_le(&hexbytes(rest)),
@@ -157,7 +157,7 @@ macro_rules! scalar {
     }};
 }
 
-fn apply_u(x: &mut BigUint, op: &str) {
+pub fn apply_u(x: &mut BigUint, op: &str) {
     let (name, rest) = cut(op);
     match name {
         "add" => *x += &arg_u(rest),
@@ -204,7 +204,7 @@ fn apply_u(x: &mut BigUint, op: &str) {
     }
 }
 
-fn apply_i(x: &mut BigInt, op: &str) {
+pub fn apply_i(x: &mut BigInt, op: &str) {
     let (name, rest) = cut(op);
     match name {
         "add" => *x += &arg_i(rest),
@@ -256,7 +256,7 @@ fn apply_i(x: &mut BigInt, op: &str) {
     }
 }
 
-fn ops_of(h: &str) -> Vec<&str> {
+pub fn ops_of(h: &str) -> Vec<&str> {
     let h = strip("h:", h);
     if h.is_empty() {
         vec![]
@@ -265,7 +265,7 @@ fn ops_of(h: &str) -> Vec<&str> {
     }
 }
 
-fn hist<T>(mk: impl FnOnce() -> T, apply: impl Fn(&mut T, &str), show: impl Fn(&T) -> String, h: &str) -> (Vec<String>, Option<T>) {
+pub fn hist<T>(mk: impl FnOnce() -> T, apply: impl Fn(&mut T, &str), show: impl Fn(&T) -> String, h: &str) -> (Vec<String>, Option<T>) {
     let mut obs = Vec::new();
     let mut x = match catch_unwind(AssertUnwindSafe(mk)) {
         Ok(x) => x,
@@ -299,6 +299,46 @@ fn order<T: Ord + Clone>(a: &T, b: &T) -> Vec<String> {
     vec![res_bool(a.clone().max(b.clone()) == *a), res_bool(a.clone().min(b.clone()) == *a)]
 }
 
+/// what `hist.pair` (and `histx.pair`, ops_extra.rs) print about two BigUint values
+pub fn observe_u(x: &BigUint, y: &BigUint) -> String {
+    let mut r = common(x, y);
+    r.push(res_bool(x.to_u32_digits() == y.to_u32_digits()));
+    r.push(res_bool(x.to_u64_digits() == y.to_u64_digits()));
+    r.push(res_bool(x.to_bytes_le() == y.to_bytes_le()));
+    r.push(res_bool(x.to_bytes_be() == y.to_bytes_be()));
+    r.push(res_bool(x.bits() == y.bits()));
+    r.push(res_bool(x.count_ones() == y.count_ones()));
+    r.push(res_bool(x.trailing_zeros() == y.trailing_zeros()));
+    r.push(res_bool(x.to_str_radix(10) == y.to_str_radix(10)));
+    r.push(res_bool(x.to_str_radix(16) == y.to_str_radix(16)));
+    r.extend(order(x, y));
+    r.push(res_bool(true));
+    r.push(res_bool(true));
+    r.push(res_u(x));
+    r.push(res_u(y));
+    format!("ok {}", r.join(" "))
+}
+/// the same for two BigInt values
+pub fn observe_i(x: &BigInt, y: &BigInt) -> String {
+    let mut r = common(x, y);
+    r.push(res_bool(x.to_u32_digits() == y.to_u32_digits()));
+    r.push(res_bool(x.to_u64_digits() == y.to_u64_digits()));
+    r.push(res_bool(x.to_bytes_le() == y.to_bytes_le()));
+    r.push(res_bool(x.to_bytes_be() == y.to_bytes_be()));
+    r.push(res_bool(x.to_signed_bytes_le() == y.to_signed_bytes_le()));
+    r.push(res_bool(x.to_signed_bytes_be() == y.to_signed_bytes_be()));
+    r.push(res_bool(x.bits() == y.bits()));
+    r.push(res_bool(x.trailing_zeros() == y.trailing_zeros()));
+    r.push(res_bool(x.to_str_radix(10) == y.to_str_radix(10)));
+    r.push(res_bool(x.to_str_radix(16) == y.to_str_radix(16)));
+    r.extend(order(x, y));
+    r.push(res_bool((x.sign() == Sign::NoSign) == x.is_zero()));
+    r.push(res_bool((y.sign() == Sign::NoSign) == y.is_zero()));
+    r.push(res_i(x));
+    r.push(res_i(y));
+    format!("ok {}", r.join(" "))
+}
+
 pub fn dispatch(op: &str, a: &[&str]) -> Option<String> {
     Some(match op {
         "hist.u" => {
@@ -316,22 +356,7 @@ pub fn dispatch(op: &str, a: &[&str]) -> Option<String> {
                 (Some(x), Some(y)) => (x, y),
                 _ => return Some("panic".to_string()),
             };
-            let mut r = common(&x, &y);
-            r.push(res_bool(x.to_u32_digits() == y.to_u32_digits()));
-            r.push(res_bool(x.to_u64_digits() == y.to_u64_digits()));
-            r.push(res_bool(x.to_bytes_le() == y.to_bytes_le()));
-            r.push(res_bool(x.to_bytes_be() == y.to_bytes_be()));
-            r.push(res_bool(x.bits() == y.bits()));
-            r.push(res_bool(x.count_ones() == y.count_ones()));
-            r.push(res_bool(x.trailing_zeros() == y.trailing_zeros()));
-            r.push(res_bool(x.to_str_radix(10) == y.to_str_radix(10)));
-            r.push(res_bool(x.to_str_radix(16) == y.to_str_radix(16)));
-            r.extend(order(&x, &y));
-            r.push(res_bool(true));
-            r.push(res_bool(true));
-            r.push(res_u(&x));
-            r.push(res_u(&y));
-            format!("ok {}", r.join(" "))
+            observe_u(&x, &y)
         }
         "hist.pair" => {
             let (_, x) = hist(|| ctor_i(a[1]), apply_i, res_i, a[2]);
@@ -340,23 +365,7 @@ pub fn dispatch(op: &str, a: &[&str]) -> Option<String> {
                 (Some(x), Some(y)) => (x, y),
                 _ => return Some("panic".to_string()),
             };
-            let mut r = common(&x, &y);
-            r.push(res_bool(x.to_u32_digits() == y.to_u32_digits()));
-            r.push(res_bool(x.to_u64_digits() == y.to_u64_digits()));
-            r.push(res_bool(x.to_bytes_le() == y.to_bytes_le()));
-            r.push(res_bool(x.to_bytes_be() == y.to_bytes_be()));
-            r.push(res_bool(x.to_signed_bytes_le() == y.to_signed_bytes_le()));
-            r.push(res_bool(x.to_signed_bytes_be() == y.to_signed_bytes_be()));
-            r.push(res_bool(x.bits() == y.bits()));
-            r.push(res_bool(x.trailing_zeros() == y.trailing_zeros()));
-            r.push(res_bool(x.to_str_radix(10) == y.to_str_radix(10)));
-            r.push(res_bool(x.to_str_radix(16) == y.to_str_radix(16)));
-            r.extend(order(&x, &y));
-            r.push(res_bool((x.sign() == Sign::NoSign) == x.is_zero()));
-            r.push(res_bool((y.sign() == Sign::NoSign) == y.is_zero()));
-            r.push(res_i(&x));
-            r.push(res_i(&y));
-            format!("ok {}", r.join(" "))
+            observe_i(&x, &y)
         }
         _ => return None,
     })
